@@ -32,3 +32,74 @@ let () =
          (match s.st with StS -> "S" | StH -> "H" | StT -> "T") ^
          (if s.cin = [] && s.sin = [] then "" else ":pending"))
     | _ -> "?args")
+
+(* relay_trace <tmux 0/1> <client chunks> <server chunks> <events> : trace validation.  Replays
+   a trace recorded by the overlay build of the real relay (go/cmd/overlay/vl.go: one token
+   <role><code>[:value…]@<point> per synchronisation operation executed) with the extracted
+   Relay.rv_run: every event must be an enabled step of step_fn from the current model state
+   with the observed value.  Prints "ok:<slog>:<clog>:<blog>" (compared with the bytes the
+   real writers received) or "bad:<index>:<event>:<model state>" for the first offending event. *)
+let c13_role = function 'I' -> Some RvIn | 'O' -> Some RvOut | 'H' -> Some RvHs | _ -> None
+let c13_ev (t : string) : rv_ev option =
+  let body = match String.index_opt t '@' with Some i -> String.sub t 0 i | None -> t in
+  if String.length body < 2 then None else
+  match c13_role body.[0] with
+  | None -> None
+  | Some r ->
+    let n s = n_of_int (int_of_string s) in
+    let buf = function "I" -> Some RvBufI | "O" -> Some RvBufO | _ -> None in
+    (try
+      match r, String.split_on_char ':' (String.sub body 1 (String.length body - 1)) with
+      | (RvIn | RvOut), ["R"; c] -> Some (RvRead (r, bytes_of_hex c))
+      | (RvIn | RvOut), ["L"; x] -> Some (RvLoad (r, n x))
+      | _, ["K"; b] -> Some (RvLock (r, bool_of b))
+      | (RvIn | RvOut), ["V"; x] -> Some (RvReload (r, n x))
+      | RvIn, ["A"; "I"; c] | RvOut, ["A"; "O"; c] -> Some (RvAdd (r, bytes_of_hex c))
+      | _, ["U"] -> Some (RvUnlock r)
+      | _, ["S"; ch; b; cf] ->
+        (match ch with
+         | "srv" -> Some (RvSend (r, RvSrv, bytes_of_hex b, bool_of cf))
+         | "cli" -> Some (RvSend (r, RvCli, bytes_of_hex b, bool_of cf))
+         | "byp" -> Some (RvSend (r, RvByp, bytes_of_hex b, bool_of cf))
+         | _ -> None)
+      | _, ["C"; o; ok] -> Some (RvCas (r, n o, bool_of ok))
+      | (RvOut | RvHs), ["T"; x] -> Some (RvStore (r, n x))
+      | RvOut, ["D"; c; b] -> Some (RvDetect (bytes_of_hex c, bool_of b))
+      | RvOut, ["G"] -> Some RvGo
+      | RvHs, ["E"; s; k] -> (match buf s with Some b -> Some (RvEat (b, nat_of_int (int_of_string k))) | None -> None)
+      | RvHs, ["Q"; s; ok] -> (match buf s with Some b -> Some (RvRes (b, bool_of ok)) | None -> None)
+      | RvHs, ["P"; s; "nil"] -> (match buf s with Some b -> Some (RvPop (b, None)) | None -> None)
+      | RvHs, ["P"; s; c] -> (match buf s with Some b -> Some (RvPop (b, Some (bytes_of_hex c))) | None -> None)
+      | _, ["X"; v] -> Some (RvScope (v <> "0"))
+      | _ -> None
+    with _ -> None)
+
+let c13_state_descr s : string =
+  let st = match s.st with StS -> "S" | StH -> "H" | StT -> "T" in
+  let lk = match s.lk with Free -> "free" | ByIn -> "In" | ByOut -> "Out" | ByHs -> "Hs" | ByTl -> "Tl" in
+  let ipc = match s.ipc with I0 -> "I0" | I1 _ -> "I1" | I3 _ -> "I3" | I4 _ -> "I4" | I4a _ -> "I4a" | I4p -> "I4p"
+                           | I4u _ -> "I4u" | I5 _ -> "I5" | I6 _ -> "I6" in
+  let opc = match s.opc with O0 -> "O0" | O1 _ -> "O1" | O3 _ -> "O3" | O4 _ -> "O4" | O4a _ -> "O4a" | O4p -> "O4p"
+                           | O4u _ -> "O4u" | O5 (_, t) -> if t then "O5t" else "O5" | O5h _ -> "O5h" | O5g _ -> "O5g"
+                           | O5s _ -> "O5s" | O6 -> "O6" in
+  let hpc = match s.hpc with HN -> "HN" | H0 -> "H0" | H2 -> "H2" | H3 -> "H3" | H4 -> "H4" | HF1 -> "HF1" | HF2 -> "HF2"
+                           | HL _ -> "HL" | HP1 _ -> "HP1" | HS1 _ -> "HS1" | HP2 _ -> "HP2" | HS2 _ -> "HS2" | HD _ -> "HD" in
+  Printf.sprintf "status=%s,lock=%s,in=%s,out=%s,hs=%s,parkedI=%d,parkedO=%d" st lk ipc opc hpc
+    (List.length (flat s.ibr s.ibq)) (List.length (flat s.obr s.obq))
+
+let () =
+  register "relay_trace" (function [tm; cs; ss; tr] ->
+      let toks = split_on ' ' tr in
+      (* parse up to the first token that is no event of the model *)
+      let rec parse acc = function
+        | [] -> (List.rev acc, None)
+        | t :: r -> (match c13_ev t with Some e -> parse (e :: acc) r | None -> (List.rev acc, Some t)) in
+      let (evs, unknown) = parse [] toks in
+      let nth i = try List.nth toks i with _ -> "?" in
+      (match rv_run (bool_of tm) evs O (init (chunks_of cs) (chunks_of ss)) with
+       | RvBad (i, s) -> Printf.sprintf "bad:%d:%s:%s" (int_of_nat i) (nth (int_of_nat i)) (c13_state_descr s)
+       | RvOk s ->
+         (match unknown with
+          | Some t -> Printf.sprintf "bad:%d:%s:no-event-of-the-model:%s" (List.length evs) t (c13_state_descr s)
+          | None -> "ok:" ^ hex_of_bytes s.slog ^ ":" ^ hex_of_bytes s.clog ^ ":" ^ hex_of_bytes s.blog))
+    | _ -> "?args")
